@@ -18,7 +18,8 @@ def _clean():
 def run(c):
     c.rule = ("step mode: random op sequences (8-28 ops: do ok/failing callback/failing SQL/failing append/read, must-commit-now write, "
               "binlog Commit at a random record boundary incl. stale ones, commit timer incl. a commit parked until the binlog catches up, "
-              "replica Apply/Skip/hold, explicit reader View, graceful close, crash image at a random durable boundary + replay with random "
+              "real-time `tick` (two thirds of the NoWaitCommit-master cases run with CommitEvery=3ms: the engine's own timer may fire; there "
+              "must be none in that mode), replica Apply/Skip/hold, explicit reader View, graceful close, crash image at a random durable boundary + replay with random "
               "chunking incl. payloads cut at arbitrary 4-byte positions of the stream (partial records carried over, engine answers "
               "NotEnoughData/UnknownMagic), intermediate and missing final Commit) on one real Engine per case (WaitCommit master / NoWaitCommit master / replica) "
               "against a scripted binlog; every op is one real call, state dumped after each op. "
@@ -82,6 +83,9 @@ META = {
              "stream - the engine consumes the complete leading events and reports how far it got, also payloads with no complete event - "
              "whole-record payloads, skips and periodic Commits in any order; the loop invariant Rd shows no record is lost, duplicated "
              "or reordered, chunk_makes_progress that a payload containing the next event advances), "
+             "committed_offset_le_durable (dbCommittedOffset <= binlogDurableOffset in EVERY mode with a binlog, covered by an already "
+             "delivered Commit) with nowait_has_no_timer (the CommitEvery timer exists only in WaitCommit mode and waits for the binlog; "
+             "timer_without_wait_breaks_invariant is the decide witness for a timer that commits without waiting, seeded change C17-r3-2), "
              "readers_observe_announced_prefix (trace level: split any schedule at any View: the value the callback observes is the "
              "application of the binlog prefix ending at its offset, that offset is 0 or covered by a Commit already delivered before "
              "that moment - ghost list ann, pinned by ann_records_commits - and the View changes nothing), "
